@@ -6,6 +6,7 @@ use crate::engine::{Env, EvidenceMeta, PartReport, Tally};
 
 pub mod c01;
 pub mod c02;
+pub mod c03;
 pub mod c04;
 pub mod c05;
 pub mod c06;
@@ -28,6 +29,7 @@ pub const ALL: [&str; 13] = ["C01", "C02", "C04", "C05", "C06", "C07", "C12", "C
 
 pub fn run(env: &Env) -> Option<PropRun> {
     match env.prop.as_str() {
+        "C03" => Some(c03::run(env)),
         "C04" => Some(c04::run(env)),
         "C05" => Some(c05::run(env)),
         "C06" => Some(c06::run(env)),
@@ -47,6 +49,7 @@ pub fn run(env: &Env) -> Option<PropRun> {
 
 pub fn judge(prop: &str, part: &str, case: &Case, tally: &mut Tally) -> Option<Verdict> {
     match prop {
+        "C03" => Some(c03::judge(part, case, tally)),
         "C04" => Some(c04::judge(part, case, tally)),
         "C05" => Some(c05::judge(part, case, tally)),
         "C06" => Some(c06::judge(part, case, tally)),
